@@ -192,6 +192,13 @@ pub fn build(
                             format!("failed to convert `align` attribute into usize for type `{resolvee_path}`")
                         })?);
                     }
+                    // anything else written under one of these names would be skipped
+                    // silently, and the type laid out as if it were not there
+                    ("size" | "singleton" | "align", _) => {
+                        anyhow::bail!(
+                            "the `{ident}` attribute of type `{resolvee_path}` takes exactly one integer"
+                        );
+                    }
                     _ => {}
                 }
             }
@@ -203,9 +210,20 @@ pub fn build(
                 "cloneable" => cloneable = true,
                 "defaultable" => defaultable = true,
                 "packed" => packed = true,
+                "size" | "singleton" | "align" => {
+                    anyhow::bail!(
+                        "the `{ident}` attribute of type `{resolvee_path}` takes exactly one integer"
+                    );
+                }
                 _ => {}
             },
-            grammar::Attribute::Assign(_, _) => {}
+            grammar::Attribute::Assign(ident, _) => {
+                if matches!(ident.as_str(), "size" | "singleton" | "align") {
+                    anyhow::bail!(
+                        "the `{ident}` attribute of type `{resolvee_path}` is written `{ident}(<integer>)`"
+                    );
+                }
+            }
         }
     }
 
@@ -235,7 +253,18 @@ pub fn build(
                                         .try_into()
                                         .with_context(|| format!("failed to convert `address` attribute into usize for field `{ident}` of type `{resolvee_path}`"))?,
                                 );
+                            } else if ident.as_str() == "address" {
+                                anyhow::bail!(
+                                    "the `address` attribute of a field of type `{resolvee_path}` takes exactly one integer"
+                                );
                             }
+                        }
+                        grammar::Attribute::Ident(ident) | grammar::Attribute::Assign(ident, _)
+                            if ident.as_str() == "address" =>
+                        {
+                            anyhow::bail!(
+                                "the `address` attribute of a field of type `{resolvee_path}` is written `address(<integer>)`"
+                            );
                         }
                         _ => {}
                     }
